@@ -292,6 +292,8 @@ def shard_random(desc, rec):
         kind = kinds[i % len(kinds)]
         spec = gen.gen_spec(grng, kind, big=desc.get("big", False))
         variant = gen.gen_variant(grng, kind)
+        if desc.get("inf"):
+            spec = gen.inject_inf(grng, spec)
         run_case(rec, spec, variant, rng, tuple(desc["oracles"]), "random", desc.get("scr_k", 1),
                  regen={"seed": desc["seed"], "shard": desc["shard"], "index": i, "kinds": kinds,
                         "big": desc.get("big", False)})
